@@ -9,7 +9,9 @@ import PvProofs.C19Dist
 #print axioms PvProofs.C19.applyTo_exact
 #print axioms PvProofs.C19.exchangeSplit_is_ceil
 #print axioms PvProofs.C19.exchangeSplit_skips
-#print axioms PvProofs.C19.exchangeSplit_fails_iff
+#print axioms PvProofs.C19.exchangeSplit_never_fails
+#print axioms PvProofs.C19.exchangeSplit_fails_iff_before_fix
+#print axioms PvProofs.C19.exchangeSplit_witness_before_fix
 #print axioms PvProofs.C19.splitByBips_floor_and_adds_up
 #print axioms PvProofs.C19.splitCoinByBips_never_fails
 #print axioms PvProofs.C19.splitCoinByBips_rejects
